@@ -159,7 +159,7 @@ PROPS = {
                      only_sigs=["passed-over", "fallback-undecided", "dropped-though-matched", "ran-unmatched"])],
         level_text='Kernel-checked: in matching mode no read pattern reaches the socket or changes the buffer and unfreeze restores the cursor (any matcher); verdict stability, `no` stays `no` and fragmentation safety for every ReadFull-only matcher program, instantiated for ssh, xmpp, postgres, socks4, socks5, proxy_protocol, regexp, tls. Tied to the code by the verdict differential over all sampled prefixes; purity, determinism, monotonicity, routed re-evaluation of fragmented messages on one Connection, and conjunction of matcher sets are judged on the implementation.',
         level_note="Trusted: Lean kernel, harness + driver; io.ReadFull / io.ReadAtLeast on a frozen Connection behave as Prog.run (sampled op-by-op by C01's conn differential, not proved). Known finding: WinBox two-chunk fragments (kernel-checked witness winbox_fragment_rejected_violation). Partial: http's verdict after the request-line test depends on net/http (oracle only); rdp, dns/tcp, openvpn/tcp, winbox are exact-length matchers (yes is not stable by design).",
-        rule='as C14; in addition every message that matches whole (≤ 8192 bytes) is delivered through RouteList.Compile in all two-way splits (≤ 160 bytes) or three random splits, and 1 in 8 messages is evaluated in a two-matcher set; route: C02's random multi-route lists and arrival schedules (routing outcome must be consistent with the matchers' verdicts on the bytes received, whatever the segmentation); non-trivial = verdict other than `more`',
+        rule='as C14; in addition every message that matches whole (≤ 8192 bytes) is delivered through RouteList.Compile in all two-way splits (≤ 160 bytes) or three random splits, and 1 in 8 messages is evaluated in a two-matcher set; route: the random multi-route lists of C02 and arrival schedules (routing outcome must be consistent with the verdicts of the matchers on the bytes received, whatever the segmentation); non-trivial = verdict other than `more`',
         assumptions=[],
     ),
     "C04": dict(
